@@ -8,7 +8,7 @@ EXPLANATION = (
     'V*(selected vectors), and for the real- / complex-shift solvers that the first nev Ritz values are transformed back to '
     'the spectrum of A before the base sort on every normal path and not touched afterwards; every subscript of the Ritz arrays '
     '(restart shift loop with its conjugate-pair look-ahead, nev_adjusted, complex-shift back-transformation) is within the '
-    'array for all sizes (zone analysis shared with C13). Does NOT decide residuals, '
+    'array for all sizes (zone analysis shared with C13); every work buffer of the back-transformation loops that is refreshed inside the loop is refreshed on every path from the start of an iteration to each read (no Ritz pair is tested against the previous pair\'s solve). Does NOT decide residuals, '
     'unit norm, the choice of root in the complex-shift back-transformation or distinctness of pairs.')
 ASSUMPTIONS = ['Eigen kernels and std::sort are correct', 'instantiations listed in drivers/ are representative of every OpType']
 BASE = 'Spectra::GenEigsBase'
@@ -24,6 +24,8 @@ def run(ctx):
     shiftsolvers.shifted_classes_override(ctx, BASE)
     from . import c13
     c13.index_ranges(ctx, bases=('Spectra::GenEigsBase',), floor=60)
+    from . import stale
+    stale.loop_buffers(ctx, scope=lambda fn: (fn.cls or '').startswith('Spectra::GenEigs'), min_instances=4)
     ctx.require('flags-fresh-at-use', 3)
     ctx.require('coherent-permutation', 3)
     ctx.require('backtransform-then-base-sort', 2)
